@@ -18,7 +18,7 @@ class SpecError(Exception):
 
 
 LISTKEYS = {'uses', 'replace', 'flags', 'records', 'properties', 'enforce_extra', 'byref_types'}
-MAPKEYS = {'typemap', 'callmap', 'opmap', 'enums', 'membermap'}
+MAPKEYS = {'typemap', 'callmap', 'opmap', 'enums', 'membermap', 'subst'}
 
 
 def parse_spec(path):
@@ -75,6 +75,32 @@ def load_all(specdir):
             if u['name'] in units:
                 raise SpecError('duplicate unit ' + u['name'])
             units[u['name']] = u
+    # `like: <unit>` -- inherit every section/key the unit does not define itself, after textual substitution (`subst:`)
+    done = set()
+
+    def resolve(u, stack=()):
+        if u['name'] in done or 'like' not in u:
+            done.add(u['name'])
+            return
+        if u['name'] in stack:
+            raise SpecError('like-cycle at ' + u['name'])
+        base = units.get(u['like'])
+        if base is None:
+            raise SpecError('unit %s is like unknown unit %s' % (u['name'], u['like']))
+        resolve(base, stack + (u['name'],))
+        for k, v in base['sections'].items():
+            if k not in u['sections']:
+                for a, b in u.get('subst', {}).items():
+                    v = v.replace(a, b)
+                v = v.replace(base['name'], u['name'])
+                u['sections'][k] = v
+        for k in ('backend', 'flags', 'records', 'typemap', 'tu', 'filter', 'decl', 'records_tu', 'timeout', 'cost', 'self', 'callmap',
+                  'enums', 'membermap', 'opmap', 'replace', 'uses', 'mode', 'kind', 'class'):
+            if k not in u and k in base:
+                u[k] = base[k]
+        done.add(u['name'])
+    for u in units.values():
+        resolve(u)
     return units
 
 
@@ -85,22 +111,38 @@ class OrderedUnits(dict):
 GHOST_OK = re.compile(r'^\s*(gh_\w+(\[[^\]]*\])?\s*(=|\+=|-=)[^=]|if\s*\(|else|\{|\}|$|/[/*])')
 
 
+def _strip_guard(s):
+    s = s.strip()
+    while True:
+        if s.startswith('{') or s.startswith('}'):
+            s = s[1:].strip()
+            continue
+        if s.startswith('else'):
+            s = s[4:].strip()
+            continue
+        m = re.match(r'^if\s*\(', s)
+        if m:
+            depth = 0
+            for k in range(m.end() - 1, len(s)):
+                if s[k] == '(':
+                    depth += 1
+                elif s[k] == ')':
+                    depth -= 1
+                    if depth == 0:
+                        s = s[k + 1:].strip()
+                        break
+            else:
+                return s
+            continue
+        return s
+
+
 def check_ghost_text(txt, unitname):
     """ghost splices may only assign gh_* variables (syntactic check; the assigns clauses check it semantically)"""
+    txt = re.sub(r'/\*.*?\*/', '', txt, flags=re.S)
     for st in re.split(r'[;\n]', txt):
-        s = st.strip()
-        if not s:
+        s = _strip_guard(st)
+        if not s or s.startswith('//'):
             continue
-        # strip leading 'if (...)' guards
-        while True:
-            m = re.match(r'^(if\s*\(.*?\)\s*|else\s*|\{\s*|\}\s*)(.*)$', s)
-            if m and m.group(2) != s:
-                s = m.group(2).strip()
-                if not s:
-                    break
-            else:
-                break
-        if not s:
-            continue
-        if not re.match(r'^((const\s+)?\w+\s+\*?\s*)?gh_\w+(\[[^\]]*\])?\s*(=|\+=|-=|\+\+|--)', s) and not s.startswith('/*') and not s.startswith('//') and not s.startswith('__CPROVER_assert'):
+        if not re.match(r'^((const\s+)?\w+\s+\*?\s*)?gh_\w+(\[[^\]]*\])?\s*(=[^=]|\+=|-=|\+\+|--)', s) and not s.startswith('__CPROVER_assert'):
             raise SpecError('unit %s: ghost text assigns something that is not gh_*: %r' % (unitname, st))
